@@ -184,6 +184,11 @@ def run(tier, replay):
     bres = pool.map([{"op": "bits_bridge", "n": nb // parts, "seed": seed() * 1000 + i} for i in range(parts)], timeout=600)
     bridged = 0
     for br in bres:
+        if br and "panic" in br:
+            # a panic of the code under test is data, not a tool error
+            rep.violation({"api_call": "qb_and/qb_or/i32_to_bytes/f64_to_bytes on random operands", "panic": br["panic"],
+                           "expected": "a value for every operand"}, {"bridge", "panic"}, name="bridge-panic")
+            continue
         if not br or "count" not in br:
             raise ToolError("bits_bridge failed: %s" % str(br)[:200])
         bridged += br["count"]
